@@ -3,6 +3,7 @@ import TT.Driver.C04
 import TT.Driver.C06
 import TT.Driver.C11
 import TT.Driver.C12
+import TT.Driver.C15
 /-
 Line-protocol driver: one query per input line, one answer per output line.
 `<suite> <op> <args...>`; unknown queries answer `bad-op` (never a default value).
@@ -16,6 +17,7 @@ def answer (line : String) : String :=
   | "c06" :: rest => c06 rest
   | "c11" :: rest => c11 rest
   | "c12" :: rest => c12 rest
+  | "c15" :: rest => c15 rest
   | _ => "bad-op"
 
 partial def loop (h : IO.FS.Stream) (out : IO.FS.Stream) : IO Unit := do
